@@ -1263,10 +1263,36 @@ func c20R8(p *core.Program, r *core.Report) {
 		stages = append(stages, stage{f, "inspect.extractTemplates", paramCall})
 	}
 	if ex := p.Method("flows/definition", "flow", "extract"); ex != nil {
+		// the recording step may be a function literal of extract or a named function of the package
+		isRecorder := func(g *ssa.Function) bool {
+			if g == nil || g.Blocks == nil || core.FuncPkgPath(g) != core.FuncPkgPath(ex) {
+				return false
+			}
+			for _, cs := range core.Calls(g, false) {
+				if f := cs.Common().StaticCallee(); f != nil && (f.Name() == "NewExtractedReference" || f.Name() == "NewExtractedTemplate") {
+					return true
+				}
+			}
+			return false
+		}
+		recorderCall := func(cs core.CallSite) string {
+			if g := cs.Common().StaticCallee(); isRecorder(g) {
+				return g.Name()
+			}
+			return ""
+		}
+		hand := either(staticNamed("NewExtractedReference", "NewExtractedTemplate"), recorderCall, paramCall)
+		recorders := map[*ssa.Function]bool{}
 		var walk func(f *ssa.Function)
 		walk = func(f *ssa.Function) {
+			for _, cs := range core.Calls(f, false) {
+				if g := cs.Common().StaticCallee(); isRecorder(g) && !recorders[g] {
+					recorders[g] = true
+					stages = append(stages, stage{g, "flow.extract/callback", staticNamed("NewExtractedReference", "NewExtractedTemplate")})
+				}
+			}
 			for _, an := range f.AnonFuncs {
-				stages = append(stages, stage{an, "flow.extract/callback", either(staticNamed("NewExtractedReference", "NewExtractedTemplate"), paramCall)})
+				stages = append(stages, stage{an, "flow.extract/callback", hand})
 				walk(an)
 			}
 		}
@@ -1301,5 +1327,5 @@ func c20R8(p *core.Program, r *core.Report) {
 				"the extraction stage "+st.name+" hands over to "+what+" conditionally: "+bad+" — templates or references that a run uses are then missing from the inspection's dependencies")
 		}
 	}
-	r.Require("extraction_handovers", n, 9)
+	r.Require("extraction_handovers", n, 8)
 }
